@@ -10,7 +10,7 @@ var propTable = map[string]*propSpec{
 	},
 	"C19": {
 		ID:          "C19",
-		Rules:       []string{"R-REGTABLE", "R-ARITY", "R-POS", "R-ALLOC", "R-SIZECAP", "R-METER", "R-INDEX"},
+		Rules:       []string{"R-REGTABLE", "R-ARITY", "R-POS", "R-ALLOC", "R-SIZECAP", "R-METER", "R-INDEX", "R-BYTES", "R-REBASE"},
 		Scope:       []string{"lib/stringlib/", "lib/tablelib/", "luastrings/"},
 		Explanation: "Decides only the 'never crashes, never runs away' corners of the string and table library functions, restricted to findings located in lib/stringlib, lib/tablelib and luastrings (the same rules run unrestricted under C04, C05 and C06): every argument read is within the declared arity or guarded (R-ARITY); every position normalised by StringNormPos is proved in range before it indexes or slices the subject — negative, zero and beyond-the-end positions, mininteger and maxinteger included (R-POS); sizes computed from counts (string.rep with separator, table functions) are tested for a wrapped negative result and compared with a bound (R-ALLOC sign, R-SIZECAP); every loop of these functions is metered, bounded by a held length, or table-listed with its bound (R-METER), so extreme ranges cannot spin unmetered.",
 		NotDecided:  "what the functions compute: sub, byte, char, rep, reverse, upper, lower, len, plain find, insert, remove, move, concat, unpack, pack and sort are laws about results for every argument tuple (position normalisation arithmetic, which elements move where, sort being a permutation) and are value-level. Known value-level defects seen while reading (plain find offsets, string.rep with a negative count) are listed in DESIGN.md and are not findings of this check.",
